@@ -17,9 +17,9 @@ for p in props:
           "evidence_file": "/verif/evidence/%s.json"%pid,
           "replay_cmd_template": "./check %s --replay {path}"%pid,
           "engine": "gosym",
-          "level_claimed": {"category":"model_checking","text":"Bounded symbolic execution of the real Go SSA of /repo (re-encoded from the working tree on every run): inputs are symbolic, every branch feasibility and every assertion is decided by an SMT solver, all paths within the bounds are explored; a sat answer is replayed against the natively compiled code before it is reported. Bounds: "+sp.get('bounds',''),"design_ref":"DESIGN.md §6 "+pid},
+          "level_claimed": {"category":"model_checking","text":"Bounded symbolic execution of the real Go SSA of /repo (re-encoded from the working tree on every run): inputs are symbolic, every branch feasibility and every assertion is decided by an SMT solver, all paths within the bounds are explored; a sat answer is replayed against the natively compiled code before it is reported. Bounds: "+sp.get('bounds',''),"design_ref":"DESIGN.md §0.3 (as built) and §6 "+pid},
           "level_note": "Outside the claim: "+sp.get('outside','')+" Stubs: "+"; ".join(sp.get('stubs',[]))+". Trusted: go/ssa translation, the gosym interpreter and models (validated by native replay of sampled passing paths), the SMT solver.",
-          "technique": "bounded symbolic execution of Go SSA + SMT (z3/cvc5), native replay of counterexamples"
+          "technique": sp.get("technique","bounded symbolic execution of Go SSA + SMT (z3/cvc5), native replay of counterexamples")
         })
 na=[{"property_id":p['id'],"reason":na_reasons.get(p['id'],"check not yet built; see DESIGN.md §10")} for p in props if p['id'] not in claimed]
 m={"version":1,
